@@ -165,6 +165,45 @@ def exc_signature(exc, package_hint="scenic"):
     return f"{type(exc).__name__}@{where}"
 
 
+def scenic_recover():
+    """Bring Scenic's interpreter-global state back to pristine after an asynchronous
+    interruption (time limit) and check that a trivial program compiles and samples.
+    Returns False if the process cannot be trusted any more."""
+    import sys
+
+    v = sys.modules.get("scenic.syntax.veneer")
+    if v is None:
+        return True
+    try:
+        import scenic
+        import scenic.core.object_types as ot
+
+        v.activity = 0
+        v.currentScenario = None
+        v.scenarioStack.clear()
+        v.scenarios = []
+        v.evaluatingRequirement = False
+        v._globalParameters = {}
+        v.lockedParameters = set()
+        v.lockedModel = None
+        v.loadingModel = False
+        v.currentSimulation = None
+        v.inInitialScenario = True
+        v.runningScenarios = []
+        v.currentBehavior = None
+        v.simulatorFactory = None
+        v.evaluatingGuard = False
+        if v.mode2D:
+            v.mode2D = False
+            v.Point, v.OrientedPoint, v.Object = v._originalConstructibles
+            ot.Point, ot.OrientedPoint, ot.Object = v._originalConstructibles
+        sc = scenic.scenarioFromString("ego = new Object\nparam p = Range(0, 1)\n")
+        sc.generate(maxIterations=5)
+        return not v.isActive()
+    except BaseException:
+        return False
+
+
 def hyp_search(strategy, judge, n, seed, col: Collector, *, budget_s=None, shrink_s=60,
                known_sigs=(), case_timeout=None, shrink=True):
     """Drive `judge(case) -> Outcome` over `n` cases of `strategy` with a fixed seed.
@@ -181,10 +220,17 @@ def hyp_search(strategy, judge, n, seed, col: Collector, *, budget_s=None, shrin
     state = {"skipped": 0}
 
     def run_one(case):
+        if state.get("poisoned"):
+            return None
         try:
             with time_limit(case_timeout):
                 return judge(case)
         except CaseTimeout:
+            # The alarm interrupted the tested code at an arbitrary point: its global state may
+            # be inconsistent.  Reset it and make sure a trivial compile still works; if not,
+            # nothing more is judged in this process (never a VIOLATION).
+            if not scenic_recover():
+                state["poisoned"] = True
             return Outcome(inconclusive=True, classes=["timeout"])
 
     @hypothesis.seed(seed)
@@ -197,9 +243,14 @@ def hyp_search(strategy, judge, n, seed, col: Collector, *, budget_s=None, shrin
             state["skipped"] += 1
             return
         out = run_one(case)
+        if out is None:
+            state["skipped"] += 1
+            return
         col.add(case, out)
 
     search()
+    if state.get("poisoned"):
+        col.bump("shards_stopped_after_timeout")
     if state["skipped"]:
         col.bump("skipped_budget", state["skipped"])
 
@@ -226,6 +277,8 @@ def hyp_search(strategy, judge, n, seed, col: Collector, *, budget_s=None, shrin
             if time.time() > t_stop:
                 return
             out = run_one(case)
+            if out is None:
+                return
             for s, detail in out.failures:
                 if s == sig:
                     best["case"], best["detail"] = case, detail
